@@ -71,6 +71,38 @@ let z_of_string s =
 let string_of_z = function Z0 -> "0" | Zpos p -> string_of_n (Npos p) | Zneg p -> "-" ^ string_of_n (Npos p)
 let show_zs v = "V " ^ String.concat " " (List.map string_of_z v)
 
+(* OCaml string -> Coq string (ExtrOcamlBasic keeps Coq's ascii / string inductives) *)
+let ascii_of_char c =
+  let n = Char.code c in
+  let b i = (n lsr i) land 1 = 1 in
+  Ascii (b 0, b 1, b 2, b 3, b 4, b 5, b 6, b 7)
+let coq_string s =
+  let r = ref EmptyString in
+  for i = String.length s - 1 downto 0 do r := String (ascii_of_char s.[i], !r) done;
+  !r
+let rec nat_of_int i = if i <= 0 then O else S (nat_of_int (i - 1))
+
+(* type encoding of the census harness: '/'-separated prefix form
+   L.name | A.ctor.n/args.. | Y.len/elem | T.n/elems.. | P.m/t | F.m/t | S/t | N.abi.unsafe.n/args../ret *)
+let parse_tyx s =
+  let toks = Array.of_list (String.split_on_char '/' s) in
+  let pos = ref 0 in
+  let rec go () =
+    let tk = toks.(!pos) in incr pos;
+    let parts = String.split_on_char '.' tk in
+    let rec many n = if n = 0 then [] else let x = go () in x :: many (n - 1) in
+    match parts with
+    | "L" :: rest -> TLeaf (coq_string (String.concat "." rest))
+    | ["A"; c; n] -> let args = many (int_of_string n) in TApp (coq_string c, args)
+    | ["Y"; len] -> let e = go () in TArr (e, Some (n_of_int (int_of_string len)))
+    | ["T"; n] -> TTup (many (int_of_string n))
+    | ["P"; m] -> let t = go () in TPtr (m = "1", t)
+    | ["F"; m] -> let t = go () in TRef (m = "1", t)
+    | ["S"] -> TSlice (go ())
+    | ["N"; abi; u; n] -> let args = many (int_of_string n) in let r = go () in TFn (coq_string abi, u = "1", args, r)
+    | _ -> failwith ("bad type encoding: " ^ tk)
+  in go ()
+
 let words s = List.filter (fun w -> w <> "") (String.split_on_char ' ' (String.trim s))
 
 let is_mut_fn fn = List.mem fn [2; 4; 6; 8; 10; 12; 14; 16; 22; 24; 26; 28; 30; 32; 42; 44]
@@ -86,6 +118,21 @@ let () =
         incr lines;
         let ln = !lines in
         match String.split_on_char ';' line with
+        | [c; o; _; _] when (match words c with fn :: _ -> fn = "410" | _ -> false) ->
+          (match words c, words o with
+           | [_; _; _; _; _; _; _; _; cfg; enc], ("V" :: nums) ->
+             (try
+               let t = parse_tyx enc in
+               let v = List.map z_of_string nums in
+               let m = cmodel (n_of_string cfg) t in
+               if not (zlist_eqb m v) then begin
+                 incr corr; Printf.printf "CORR %d model=%s :: %s\n" ln (show_zs m) line
+               end;
+               if not (cmonitor t v) then begin
+                 incr mon; Printf.printf "MON C04 %d marker-declared-without-language-guarantee-or-lattice-broken :: %s\n" ln line
+               end
+             with Failure e -> incr corr; Printf.printf "CORR %d %s :: %s\n" ln e line)
+           | _ -> incr corr; Printf.printf "CORR %d malformed-census-case :: %s\n" ln line)
         | [c; o; _; _] when (match words c with fn :: _ -> (try int_of_string fn >= 300 with _ -> false) | _ -> false) ->
           (match words c, words o with
            | [fn; _; sza; ala; szb; alb; len; cap; x; hex], ("V" :: nums) ->
